@@ -148,7 +148,8 @@ class Stochastic(BigSMILESbase):
         string += self.left_terminal.generate_string(extension)
         for token in self.repeat_tokens:
             string += token.generate_string(extension) + ", "
-        string = string[:-2]
+        if len(self.repeat_tokens) > 0:
+            string = string[:-2]
         if len(self.end_tokens) > 0:
             string += "; "
             for token in self.end_tokens:
